@@ -1542,6 +1542,11 @@ def run(ctx):
     timed('cli', run_cli, ctx, drv, treq, rc, pool_c)
     # continue-on-error scans of streams with table definition messages (and a garbage piece) under filters (F25)
     timed('defstreams', DS.run, ctx, ctx.rng('defstreams'), 4 if quick else 40, (True,), True)
+    # --- w5-c09cli (begin): good + damaged + good through pybufrkit.main(): decode -m -j [--continue-on-error] prints the undamaged
+    # members (one notice per skipped member on stderr, no traceback), --ignore-value-expectation shows the message as it is
+    from harness.props import c09cli
+    timed('cli stream', c09cli.run_stream_glue, ctx, ('damaged',), 3 if quick else 30)
+    # --- w5-c09cli (end)
     ctx.notes.append('wall: ' + ', '.join(wall))
 
 
@@ -1552,6 +1557,9 @@ def replay(ctx, path):
     if rep.get('defstream'):
         DS.replay(ctx, rep)
         return
+    if rep.get('cli_stream'):   # w5-c09cli
+        from harness.props import c09cli
+        return c09cli.replay_stream_glue(ctx, rep)
     drv = ctx.driver
     treq = tables_io.group_request()
     if 'undischarged' in rep:
